@@ -51,7 +51,8 @@ def main():
         wt = "/tmp/mw/rebase_%s" % name
         sh("rm -rf %s; git -C /repo worktree add --detach %s HEAD" % (wt, wt))
         ap = sh("git -C %s apply %s/patch.diff || git -C %s apply --3way %s/patch.diff" % (wt, d, wt, d))
-        diff = sh("git -C %s diff HEAD" % wt).stdout
+        diff_b = subprocess.run("git -C %s diff HEAD" % wt, shell=True, capture_output=True).stdout     # bytes: CRLF files
+        diff = diff_b.decode("utf-8", "replace")
         sh("git -C /repo worktree remove --force %s; git -C /repo worktree prune" % wt)
         prop = src_name.split("_")[0]
         own = os.path.exists(os.path.join(d, "info.json"))
@@ -63,7 +64,7 @@ def main():
             print(name, "NOT CONFIRMED: baseline=%r demo_with_patch=%s demo_clean=%s diff=%d bytes" % (baseline, demo_rc, clean.returncode, len(diff)))
             continue
         os.makedirs(out, exist_ok=True)
-        open(os.path.join(out, "patch.diff"), "w", newline="").write(diff)
+        open(os.path.join(out, "patch.diff"), "wb").write(diff_b)
         shutil.copy(os.path.join(d, "demo.py"), os.path.join(out, "demo.py"))
         notes = open(os.path.join(d, "notes.md")).read() if os.path.exists(os.path.join(d, "notes.md")) else ""
         open(os.path.join(out, "notes.md"), "w").write(notes)
